@@ -119,11 +119,13 @@ CLAIMED = {
    note=NOTE_COMMON + "The key printed in the message is format_start() of a float time and may differ by one millisecond from the exact model (normalised in the comparison)."),
  "C16": dict(
    text=("Lean theorems: splitting a formatted instruction list into captions keeps every character exactly once and in order (toCaps_conserves_text), retiming "
-         "(correct_last_timing / end back-filling) changes times only (setEnd_preserves_nodes, correctLast_only_times). The full roll-up / paint-on behaviour "
+         "(correct_last_timing / end back-filling) changes times only (setEnd_preserves_nodes, correctLast_only_times), _format_italics keeps the visible characters "
+         "pass by pass, create_and_store appends exactly the buffer's visible characters to the stash (store_conserves_text) and the roll-up flush moves them "
+         "there (rollUp_conserves_text). The full roll-up / paint-on behaviour "
          "(mode switches, CR, RDC, implicit flush) is in the executable reader model, compared with the implementation and with the conservation / ordering / "
          "contiguity oracle on random programs (depths 2-4, row addresses, doubling, drop/non-drop, gaps)."),
    ref="§3 C16", technique="Lean 4 proof of the conservation lemmas + state-machine correspondence + conservation/contiguity oracle",
-   note=NOTE_COMMON + "Conservation through the whole roll-up state machine (buffer to stash across CR/flush) is not proved end-to-end; simulate_roll_up=True is outside the model."),
+   note=NOTE_COMMON + "Conservation is proved for the italics normalisation (every pass), for create_and_store with all its retiming branches (store_conserves_text) and for the roll-up flush (rollUp_conserves_text); the induction over a whole command stream (character words append to the buffer, other commands leave text alone) is checked by execution only; simulate_roll_up=True is outside the model."),
 
  "C03": dict(
    text=("Lean theorems for every string: decoding saxutils-escaped text with the predefined XML references returns the string (unescape_escape / "
